@@ -146,6 +146,8 @@ def main(tier, seed):
     run.explanation = ('ground-complete: one obligation per (row, target) over all %d rows x targets -10..1500, real performance() and score() '
                        'evaluated, inequalities checked in exact integer arithmetic; structural clauses explored symbolically. Reported as '
                        'ground-evaluated (level other), not SMT-proved.' % n)
+    from pyvc.frames import frame_obligations
+    frame_obligations(run, [a.performance, a.score])
     run.assume('exact integer characterisation of the formula (specs/athlon.py) with the pinned official coefficients',
                'targets <= 0: the "strictly less" half is vacuous (no score is below 0)', 'pyvc proxies (structural exploration)')
     results = report.pool_map(_work, [('g', (i,)) for i in range(n)] + [('s', (i,)) for i in range(n)])
